@@ -332,11 +332,14 @@ Proof.
     repeat constructor; vm_compute; congruence.
   - eexists. split; [vm_compute; reflexivity|]. split; vm_compute; reflexivity.
 Qed.
-(** the hypothesis [2352 <= zlen cut] of [stacked_mdf_blocks_prefix] is needed: with less than
-    one whole raw sector left the MdfStream has size 0, and a StreamWrapper of size 0 does not
-    clip reads while its seeks clamp to 0 - every sector of the chain is then served from the
-    start of the file (the real classes do the same; no directory can be read through such a
-    wrapper, so an export never builds this tower) *)
+(** the hypothesis [2352 <= zlen cut] of [stacked_mdf_blocks_prefix]: with less than one whole
+    raw sector left the MdfStream has size 0, and a StreamWrapper of size 0 is "not clipped".
+    Before the fix of StreamWrapper.seek (seeks clamped to the size 0 while reads were not
+    clipped) every sector of the chain was then served from the start of the file and the drained
+    data began with [16;17;18;19], not a prefix of the full data; since the fix the seeks are not
+    clamped either, the reads run off the end of the file and the drain yields nothing - still a
+    prefix.  The theorem keeps the hypothesis (no directory can be read through such a wrapper, so
+    an export never builds this tower); the example records the behaviour of the size-0 case. *)
 Example ex_stacked_needs_whole_sector :
   let cut := cut_at 1208 ex_raw in
   let M' := mdf_view (zlen cut) Base in
@@ -345,7 +348,7 @@ Example ex_stacked_needs_whole_sector :
        fst (drain 5 (fun x => x) (plug ex_w M') cut (init_state (plug ex_w M') 0) 1024 2 []) = Ok D'
        /\ fst (drain 5 (fun x => x) (plug ex_w (mdf_view (zlen ex_raw) Base)) ex_raw
                      (init_state (plug ex_w (mdf_view (zlen ex_raw) Base)) 0) 1024 2 []) = Ok D
-       /\ firstn 4 D' = [16; 17; 18; 19] /\ firstn 4 D = [36; 37; 38; 39].
+       /\ D' = [] /\ firstn 4 D = [36; 37; 38; 39].
 Proof.
   cbv zeta. split; [vm_compute; reflexivity|].
   eexists _, _. split; [vm_compute; reflexivity|]. split; [vm_compute; reflexivity|].
